@@ -60,7 +60,7 @@ func runC10(r *vhlib.Run) {
 				r.Case("inflate", []string{vhlib.Hex(s.Data)}, decObs{cls: base.Cls, out: base.Out, inOff: base.In}.String())
 			}
 			for k, sk := range kinds {
-				for sc := 0; sc < 6; sc++ {
+				for sc := 0; sc < 7; sc++ {
 					if r.Quick() && (k+sc+i)%3 != 0 {
 						continue
 					}
